@@ -38,6 +38,7 @@ import (
 	"github.com/segmentio/kafka-go/protocol/fetch"
 	"github.com/segmentio/kafka-go/protocol/listoffsets"
 	"github.com/segmentio/kafka-go/protocol/metadata"
+	"github.com/segmentio/kafka-go/protocol/produce"
 
 	"kvharness/internal/gen"
 	"kvharness/internal/muxfake"
@@ -72,6 +73,7 @@ const (
 	fSlowBody fault = "slowbody" // header, pause, body
 	fTrunc    fault = "trunc"    // body cut short, then the broker closes
 	fClose    fault = "close"    // the broker closes instead of answering
+	fTail     fault = "tail"     // the frame carries, after a complete body, bytes that spell a frame for the next id
 	fStall    fault = "stall"    // the broker stalls in the MIDDLE of the body (after k bytes) past the caller's deadline, then goes on
 )
 
@@ -83,6 +85,13 @@ type muxReq struct {
 	off  int64 // fetch offset
 	seq  int   // arrival index
 	gz   bool  // fetch: answer with a gzip-compressed batch followed by more bytes inside the same message set
+	// fetch, "tail" form: two messages, the value of the last one ends in bytes that spell a frame for the next id
+	tail     bool
+	keyed    bool
+	filler   int // bytes of filler in the last value (when the response is not cut to size by `limit`)
+	limit    int // PartitionMaxBytes of the request
+	oversize bool // make the message set exactly `limit` bytes + the embedded frame (KIP-74: first message returned whole)
+	fetchVer int16 // ApiVersions: the fetch version to advertise
 }
 
 type sentFrame struct {
@@ -101,11 +110,17 @@ type muxBroker struct {
 	batch  int
 	order  string
 	faults map[int]fault
+	avTail bool // the ApiVersions answer carries, after the list of versions, bytes that spell a frame for the next id
 	gap    time.Duration
 	pause  time.Duration
 	r      *rand.Rand
 	stallK   int
 	stallFor time.Duration
+	tailForm bool  // fetch responses in the "tail" form (see tailSet)
+	keyed    bool
+	oversize bool
+	filler   int
+	fetchVer int16
 	rr       *rand.Rand // readLoop's own source (b.r belongs to sendLoop)
 	gzPct    int // per cent of fetch requests answered with the compressed form
 }
@@ -121,7 +136,7 @@ func (b *muxBroker) readLoop() {
 		if err != nil {
 			return
 		}
-		q := muxReq{id: h.Corr, key: h.Key, ver: h.Ver}
+		q := muxReq{id: h.Corr, key: h.Key, ver: h.Ver, fetchVer: b.fetchVer}
 		if msg, err := muxfake.Decode(frame); err == nil {
 			switch m := msg.(type) {
 			case *listoffsets.Request:
@@ -132,11 +147,24 @@ func (b *muxBroker) readLoop() {
 				if len(m.TopicNames) == 1 {
 					q.tag, _ = strconv.Atoi(strings.TrimPrefix(m.TopicNames[0], "t"))
 				}
+			case *produce.Request:
+				// the tag is the value of the first record
+				if len(m.Topics) == 1 && len(m.Topics[0].Partitions) == 1 && m.Topics[0].Partitions[0].RecordSet.Records != nil {
+					if rec, err := m.Topics[0].Partitions[0].RecordSet.Records.ReadRecord(); err == nil {
+						if v, err := protocol.ReadAll(rec.Value); err == nil {
+							q.tag, _ = strconv.Atoi(string(v))
+						}
+					}
+				}
 			case *fetch.Request:
 				q.tag = int(m.MaxWaitTime)
 				q.gz = b.rr.Intn(100) < b.gzPct
 				if len(m.Topics) == 1 && len(m.Topics[0].Partitions) == 1 {
 					q.off = m.Topics[0].Partitions[0].FetchOffset
+					q.limit = int(m.Topics[0].Partitions[0].PartitionMaxBytes)
+				}
+				if b.tailForm {
+					q.gz, q.tail, q.keyed, q.filler, q.oversize = false, true, b.keyed, b.filler, b.oversize
 				}
 			}
 		}
@@ -159,7 +187,8 @@ func response(q muxReq, id int32, errCode int16) []byte {
 	switch q.key {
 	case 18:
 		msg = &apiversions.Response{ApiKeys: []apiversions.ApiKeyResponse{{ApiKey: 18, MaxVersion: 0}, {ApiKey: 3, MinVersion: 1, MaxVersion: 1},
-			{ApiKey: 2, MinVersion: 1, MaxVersion: 1}, {ApiKey: 1, MinVersion: 2, MaxVersion: 2}}}
+			{ApiKey: 2, MinVersion: 1, MaxVersion: 1}, {ApiKey: 1, MinVersion: 2, MaxVersion: max16(q.fetchVer, 2)},
+			{ApiKey: 0, MinVersion: 2, MaxVersion: []int16{2, 3, 7}[int(uint32(id))%3]}}}
 	case 2:
 		msg = &listoffsets.Response{Topics: []listoffsets.ResponseTopic{{Topic: "t",
 			Partitions: []listoffsets.ResponsePartition{{Partition: 0, ErrorCode: errCode, Timestamp: int64(q.tag), Offset: int64(q.tag)}}}}}
@@ -168,6 +197,10 @@ func response(q muxReq, id int32, errCode int16) []byte {
 		msg = &metadata.Response{Brokers: []metadata.ResponseBroker{{NodeID: 1, Host: "broker1", Port: 9092}}, ControllerID: 1,
 			Topics: []metadata.ResponseTopic{{Name: name, Partitions: []metadata.ResponsePartition{
 				{ErrorCode: errCode, PartitionIndex: 0, LeaderID: 1, ReplicaNodes: []int32{1}, IsrNodes: []int32{1}}}}}}
+	case 0:
+		// Produce: the base offset assigned to the batch is the tag
+		msg = &produce.Response{Topics: []produce.ResponseTopic{{Topic: "t",
+			Partitions: []produce.ResponsePartition{{Partition: 0, ErrorCode: errCode, BaseOffset: int64(q.tag), LogAppendTime: -1}}}}}
 	case 1:
 		// Fetch v2, one magic-1 message whose value is the tag
 		val := []byte(strconv.Itoa(q.tag))
@@ -180,7 +213,9 @@ func response(q muxReq, id int32, errCode int16) []byte {
 		m.Write(be32(uint32(len(val))))
 		m.Write(val)
 		var set bytes.Buffer
-		if q.gz {
+		if q.tail {
+			set.Write(tailSet(q, id))
+		} else if q.gz {
 			// a compressed batch of three messages (relative offsets inside, the wrapper carries the last absolute
 			// offset) FOLLOWED by more bytes of the same message set.  A caller that closes the Batch after one
 			// record never parses them; they must be discarded from the wire with the rest of the response.  They
@@ -218,12 +253,23 @@ func response(q muxReq, id int32, errCode int16) []byte {
 		var body bytes.Buffer
 		body.Write(be32(uint32(id)))
 		body.Write(be32(0)) // throttle
+		if q.ver >= 7 {
+			body.Write(be16(0)) // top-level error code
+			body.Write(be32(0)) // session id
+		}
 		body.Write(be32(1)) // topics
 		body.Write(kstr("t"))
 		body.Write(be32(1)) // partitions
 		body.Write(be32(0))
 		body.Write(be16(uint16(errCode)))
 		body.Write(be64(uint64(q.off + 10)))
+		if q.ver >= 4 {
+			body.Write(be64(uint64(q.off + 10))) // last stable offset
+			if q.ver >= 5 {
+				body.Write(be64(0)) // log start offset
+			}
+			body.Write(be32(0xffffffff)) // aborted transactions: null
+		}
 		if errCode != 0 {
 			body.Write(be32(0))
 		} else {
@@ -239,6 +285,64 @@ func response(q muxReq, id int32, errCode int16) []byte {
 		panic(err)
 	}
 	return b
+}
+
+func max16(a, b int16) int16 {
+	if a > b {
+		return a
+	}
+	return b
+}
+
+// v1msg renders one magic-1 message-set entry.
+func v1msg(offset int64, key, value []byte) []byte {
+	var m bytes.Buffer
+	m.Write(be32(0)) // crc (not verified by the reader)
+	m.WriteByte(1)   // magic
+	m.WriteByte(0)   // attributes
+	m.Write(be64(1)) // timestamp
+	if key == nil {
+		m.Write(be32(0xffffffff))
+	} else {
+		m.Write(be32(uint32(len(key))))
+		m.Write(key)
+	}
+	m.Write(be32(uint32(len(value))))
+	m.Write(value)
+	return append(append(be64(uint64(offset)), be32(uint32(m.Len()))...), m.Bytes()...)
+}
+
+// tailSet is the "tail" form of a message set: message 1 with a short value, message 2 (the last thing in the
+// response) whose value is `<tag>;` + filler + a frame for the next correlation id carrying the foreign tag.  With
+// `oversize` the filler is sized so that everything before the embedded frame is exactly `limit` bytes — the
+// number of bytes the client asked for at most (a broker returns a first message larger than that whole, KIP-74).
+func tailSet(q muxReq, id int32) []byte {
+	var key []byte
+	if q.keyed {
+		key = []byte("key-5")
+	}
+	prefix := []byte(fmt.Sprintf("%d;", q.tag))
+	emb := embeddedFrame(id + 1)
+	m1 := v1msg(q.off, key, append(append([]byte(nil), prefix...), "m1"...))
+	hdr2 := len(v1msg(0, key, nil))
+	filler := q.filler
+	if q.oversize {
+		filler = q.limit - len(m1) - hdr2 - len(prefix)
+		if filler < 0 {
+			// the limit is too small for two messages: a single oversize message
+			m1 = nil
+			filler = q.limit - hdr2 - len(prefix)
+			if filler < 0 {
+				filler = 0
+			}
+		}
+	}
+	v2 := append(append(append([]byte(nil), prefix...), bytes.Repeat([]byte{'.'}, filler)...), emb...)
+	off2 := q.off + 1
+	if m1 == nil {
+		off2 = q.off
+	}
+	return append(m1, v1msg(off2, key, v2)...)
 }
 
 // foreignTag is a payload nobody asked for.
@@ -279,6 +383,9 @@ func (b *muxBroker) sendLoop() {
 			f := b.faults[q.seq]
 			if q.key == 18 && f != fDrop && f != fClose {
 				f = fNone
+			}
+			if f == fTail && q.key == 1 {
+				f = fNone // Fetch: the tail forms of the message set cover it
 			}
 			switch f {
 			case fDrop:
@@ -328,6 +435,12 @@ func (b *muxBroker) sendLoop() {
 					return false
 				}
 			default:
+				if (q.key == 18 && b.avTail) || f == fTail {
+					// payload bytes after the version list, inside the frame: a client that stops reading where the list
+					// ends must not take them for the next response (/repo 2b8f9f7: now an error that closes the conn)
+					emb := embeddedFrame(q.id + 1)
+					frame = append(append(be32(uint32(len(frame)-4+len(emb))), frame[4:]...), emb...)
+				}
 				if !b.write(frame) {
 					return false
 				}
@@ -387,6 +500,13 @@ func errRes(err error) string {
 // connScenario runs one Conn scenario.  stallAt >= 0 selects the stall family: one caller, tagged ReadOffset
 // calls only, and the broker stalls in the middle of the body of the SECOND response after exactly stallAt body
 // bytes, past the caller's deadline, then sends the rest and answers what follows.
+//
+// tailFam >= 0 selects the tail family: two callers with one call each, the broker waits for both requests and
+// answers them in order, and the FIRST answer carries, after its complete body and inside its frame, bytes that spell
+// a frame for the second caller's correlation id with a foreign payload.  The first caller's reader must fail (bytes
+// left) and the second caller must not be served the leftover (C06-D30).
+var tailFam = -1
+
 func connScenario(r *rand.Rand, thorough bool, single bool, stallAt int) {
 	cl, sv := net.Pipe()
 	conn := kafka.NewConnWith(cl, kafka.ConnConfig{ClientID: "c06", Topic: "t", Partition: 0})
@@ -399,6 +519,9 @@ func connScenario(r *rand.Rand, thorough bool, single bool, stallAt int) {
 	if stallAt >= 0 {
 		nG, perG = 1, 4
 	}
+	if tailFam >= 0 {
+		nG, perG = 2, 1
+	}
 	b := &muxBroker{conn: sv, pending: make(chan muxReq, 64), done: make(chan struct{}), r: rand.New(rand.NewSource(r.Int63())),
 		batch: 1 + r.Intn(nG+1), order: []string{"fifo", "reverse", "random"}[r.Intn(3)], faults: map[int]fault{},
 		gap: time.Duration(r.Intn(3)) * 200 * time.Microsecond, pause: time.Duration(5+r.Intn(60)) * time.Millisecond}
@@ -407,18 +530,25 @@ func connScenario(r *rand.Rand, thorough bool, single bool, stallAt int) {
 	if r.Intn(3) > 0 {
 		nf = 1 + r.Intn(2)
 	}
-	kinds := []fault{fDrop, fKafkaErr, fSlowBody, fTrunc, fClose, fKafkaErr, fSlowBody}
+	kinds := []fault{fDrop, fKafkaErr, fSlowBody, fTrunc, fClose, fKafkaErr, fSlowBody, fTail}
 	if nG == 1 {
 		// frames nobody (any longer) waits for: only with a single caller.  With two or more waiters such a
 		// frame at the head of the buffer makes every waiter spin in waitResponse forever (each sees
 		// concurrency() > 1 and yields; Peek is served from the buffer, so no deadline ever fires) — a
 		// liveness problem outside C06, see docs/notes/C06.md.
-		kinds = []fault{fBogus, fDup, fStall, fStall, fStall, fKafkaErr, fDrop}
+		kinds = []fault{fBogus, fDup, fStall, fStall, fStall, fKafkaErr, fDrop, fTail}
 	}
 	for i := 0; i < nf; i++ {
 		b.faults[r.Intn(total+1)] = kinds[r.Intn(len(kinds))]
 	}
 	b.gzPct = 50
+	b.avTail = stallAt < 0 && r.Intn(10) == 0
+	if tailFam >= 0 {
+		b.batch, b.order, b.avTail, b.faults = 2, "fifo", tailFam >= 4, map[int]fault{}
+		if tailFam < 4 {
+			b.faults[0] = fTail
+		}
+	}
 	if stallAt >= 0 {
 		b.faults = map[int]fault{1: fStall}
 		b.batch = 1
@@ -445,7 +575,10 @@ func connScenario(r *rand.Rand, thorough bool, single bool, stallAt int) {
 	})
 	kafka.VerifStart()
 	deadline := time.Duration(40+r.Intn(80)) * time.Millisecond
-	b.stallFor = deadline + 30*time.Millisecond
+	if tailFam >= 0 {
+		deadline = 400 * time.Millisecond
+	}
+	b.stallFor = deadline + 250*time.Millisecond // a wide margin: the rest of the body must not arrive before the caller has given up, even on a loaded machine
 	var wg sync.WaitGroup
 	results := make([]callRes, 0, total)
 	tagBase := 1000 + r.Intn(1000)*100
@@ -453,9 +586,15 @@ func connScenario(r *rand.Rand, thorough bool, single bool, stallAt int) {
 		wg.Add(1)
 		ops := make([]string, perG)
 		for i := range ops {
-			ops[i] = []string{"offset", "parts", "batch", "offset", "parts"}[r.Intn(5)]
+			ops[i] = []string{"offset", "parts", "batch", "offset", "parts", "produce"}[r.Intn(6)]
 			if stallAt >= 0 {
 				ops[i] = "offset"
+			}
+			if tailFam >= 0 {
+				// 0..3: the tail follows the body of a ListOffsets / Metadata answer; 4..: it follows the version list of the
+				// ApiVersions answer that the produce call asks for first, while the other caller is already waiting
+				ops[i] = [][]string{{"offset", "offset"}, {"parts", "parts"}, {"offset", "parts"}, {"parts", "offset"},
+					{"produce", "offset"}, {"produce", "parts"}, {"offset", "produce"}, {"batch", "offset"}}[tailFam%8][g]
 			}
 		}
 		hold := time.Duration(r.Intn(3)) * time.Millisecond
@@ -467,7 +606,13 @@ func connScenario(r *rand.Rand, thorough bool, single bool, stallAt int) {
 				mu.Lock()
 				curTag[me] = tag
 				mu.Unlock()
-				conn.SetDeadline(time.Now().Add(deadline))
+				dl := deadline
+				if stallAt >= 0 && i >= 2 {
+					// the calls after the one that gave up in the middle of the stalled body must still be there when the rest
+					// of that body arrives: if the conn was (wrongly) kept, that is when the leftover is served to them
+					dl = b.stallFor + 300*time.Millisecond
+				}
+				conn.SetDeadline(time.Now().Add(dl))
 				res := ""
 				switch op {
 				case "offset":
@@ -486,6 +631,13 @@ func connScenario(r *rand.Rand, thorough bool, single bool, stallAt int) {
 						res = fmt.Sprintf("ok:%dparts", len(ps))
 					default:
 						res = "ok:" + strings.TrimPrefix(ps[0].Topic, "t")
+					}
+				case "produce":
+					_, _, off, _, err := conn.WriteCompressedMessagesAt(nil, kafka.Message{Value: []byte(strconv.Itoa(tag))})
+					if err != nil {
+						res = errRes(err)
+					} else {
+						res = fmt.Sprintf("ok:%d", off)
 					}
 				case "batch":
 					bt := conn.ReadBatchWith(kafka.ReadBatchConfig{MinBytes: 1, MaxBytes: 1 << 20, MaxWait: time.Duration(tag) * time.Millisecond})
@@ -515,7 +667,7 @@ func connScenario(r *rand.Rand, thorough bool, single bool, stallAt int) {
 						res = "ok:" + string(msg.Value)
 					}
 				}
-				if os.Getenv("C06_DEBUG") != "" && !strings.HasPrefix(res, "ok") {
+				if os.Getenv("C06_DEBUG") != "" && (!strings.HasPrefix(res, "ok") || op == "produce") {
 					fmt.Fprintf(os.Stderr, "op %s tag %d -> %s\n", op, tag, res)
 				}
 				mu.Lock()
@@ -523,6 +675,16 @@ func connScenario(r *rand.Rand, thorough bool, single bool, stallAt int) {
 				mu.Unlock()
 			}
 		}(g)
+	}
+	if nG > 1 && stallAt < 0 && tailFam < 0 && r.Intn(6) == 0 {
+		// the application closes the Conn while calls are in flight
+		after := time.Duration(r.Intn(15)) * time.Millisecond
+		wg.Add(1)
+		go func() {
+			defer wg.Done()
+			time.Sleep(after)
+			conn.Close()
+		}()
 	}
 	wg.Wait()
 	evs := kafka.VerifStop()
@@ -581,10 +743,12 @@ func emitMux(sent []sentFrame, reqs []muxReq, evs []kafka.VerifEvent, writeTag m
 				}
 				item = fmt.Sprintf("%s%d:%d", k, uint32(id), uint32(seen))
 			}
+		case "C.Closed":
+			item = "K"
 		case "C.Body":
 			o := e.Args[2]
-			if o == "unlock" {
-				o = "ok"
+			if o == "unlock" || o == "short" {
+				o = "ok" // "short": io.ErrShortBuffer of Batch.Read — payload delivered in part, frame drained, conn kept
 			}
 			who := e.Args[1]
 			if who == "batch" {
@@ -633,7 +797,12 @@ func main() {
 	if len(os.Args) > 1 {
 		n, _ = strconv.Atoi(os.Args[1])
 	}
+	n += 8
+	bytesCases(r, thorough)
+	consumedCases(r, thorough)
+	out.Flush()
 	stressScenarios(r, thorough)
+	fetchScenarios(r, thorough)
 	for i := 0; i < n; i++ {
 		fin := make(chan struct{})
 		go func() {
@@ -649,11 +818,15 @@ func main() {
 		}()
 		// the first fifth of the scenarios are single-caller ones (duplicates / foreign frames allowed)
 		// scenarios 0..33: the stall family, one per cut position k of the 33-byte ListOffsets body (and one beyond)
-		stallAt := -1
-		if i < 34 {
-			stallAt = i
+		// scenarios 0..7 of the run: the tail family; then the numbering above
+		stallAt, j := -1, i-8
+		tailFam = -1
+		if i < 8 {
+			tailFam = i
+		} else if j < 34 {
+			stallAt = j
 		}
-		connScenario(r, thorough, i < 34+n/5, stallAt)
+		connScenario(r, thorough, j >= 0 && j < 34+n/5, stallAt)
 		out.Flush()
 		close(fin)
 	}
